@@ -364,7 +364,9 @@ def exAdm : Adm :=
     kw := [(1, { key := 101, hash := 11, weight := 2 }), (2, { key := 102, hash := 12, weight := 4 }),
            (3, { key := 103, hash := 13, weight := 3 })] }
 
-def exLFU : TinyLFU := TinyLFU.new 16 [1, 2, 3, 4]
+/-- a fresh sketch whose doorkeeper has seen one (unrelated) hash: its answers for other hashes are the oracle's
+    (a Bloom filter may give false positives once something is set; an EMPTY filter may not) -/
+def exLFU : TinyLFU := { TinyLFU.new 16 [1, 2, 3, 4] with dk := [99] }
 
 /-- what the examples look at in a result -/
 structure ExView where
